@@ -20,15 +20,38 @@ import (
 // vhT: an instant of the real clock range (after the epoch, before 2116) or the zero time.
 func vhT(name string) time.Time {
 	t := api.NondetTime(name)
-	api.Assume(t.IsZero() || (t.UnixNano() >= 1 && t.UnixNano() < int64(1)<<62))
+	ns := t.UnixNano()
+	api.Assume(api.IteBool(t.IsZero(), true, api.IteBool(ns >= 1, ns < int64(1)<<62, false))) // no forking
 	return t
 }
 
-type vhNamer struct{ n int }
+type vhNamer struct {
+	n    int
+	seen map[string]bool
+}
 
 func (v *vhNamer) name(s string) string { v.n++; return fmt.Sprintf("%s%d", s, v.n) }
 
-func (v *vhNamer) state(s *workflow.State) {
+// state makes the first object of each kind fully symbolic; the others get fixed, distinct concrete values
+// (the reading code forks on every stored time, so symbolic times everywhere would explode without covering more code).
+func (v *vhNamer) state(s *workflow.State, kind string) {
+	if v.seen == nil {
+		v.seen = map[string]bool{}
+	}
+	if !v.seen[kind] {
+		v.seen[kind] = true
+		s.Status = workflow.Status(api.NondetInt(v.name("status")))
+		s.Start = vhT(v.name("start"))
+		s.End = vhT(v.name("end"))
+		return
+	}
+	v.n++
+	s.Status = workflow.Running
+	s.Start = time.Unix(0, int64(1000+v.n))
+}
+
+// fresh gives s new symbolic content unconditionally (updates).
+func (v *vhNamer) fresh(s *workflow.State) {
 	s.Status = workflow.Status(api.NondetInt(v.name("status")))
 	s.Start = vhT(v.name("start"))
 	s.End = vhT(v.name("end"))
@@ -77,22 +100,22 @@ func vhStored(tag string, small bool) *workflow.Plan {
 	for it := range walk.Plan(p) {
 		switch x := it.Value.(type) {
 		case *workflow.Plan:
-			v.state(x.State)
+			v.state(x.State, "plan")
 		case *workflow.Checks:
 			x.Delay = api.NondetDuration(v.name("delay"))
 			x.Key = workflow.NewV7()
-			v.state(x.State)
+			v.state(x.State, "checks")
 		case *workflow.Block:
 			x.EntranceDelay = api.NondetDuration(v.name("entrance"))
 			x.ExitDelay = api.NondetDuration(v.name("exit"))
 			x.Concurrency = api.NondetInt(v.name("conc"))
 			x.ToleratedFailures = api.NondetInt(v.name("tol"))
-			v.state(x.State)
+			v.state(x.State, "block")
 		case *workflow.Sequence:
 			if api.Choose(v.name("seqkey"), 2) == 1 {
 				x.Key = workflow.NewV7()
 			}
-			v.state(x.State)
+			v.state(x.State, "sequence")
 		case *workflow.Action:
 			_, inSeq := it.Chain[len(it.Chain)-1].(*workflow.Sequence)
 			x.Timeout = 7 * time.Second
@@ -102,7 +125,7 @@ func vhStored(tag string, small bool) *workflow.Plan {
 				x.Retries = api.NondetInt(v.name("retries"))
 				x.Req = kit.Req{N: api.NondetInt(v.name("req"))}
 				x.Attempts = v.attempts(api.Bound("max_attempts", 1, 2))
-				v.state(x.State)
+				v.state(x.State, "action")
 			}
 		}
 	}
@@ -253,7 +276,7 @@ func VerifC13Update() {
 	for i := 0; i < n; i++ {
 		switch api.Choose("update_kind", 5) {
 		case 0:
-			nm.state(p.State)
+			nm.fresh(p.State)
 			p.Reason = workflow.FailureReason(api.NondetInt(nm.name("reason")))
 			api.Assert(v.UpdatePlan(ctx, p) == nil, "UpdatePlan succeeds")
 			api.Reach("plan updated")
@@ -261,20 +284,20 @@ func VerifC13Update() {
 			if p.PreChecks == nil {
 				api.Assume(false)
 			}
-			nm.state(p.PreChecks.State)
+			nm.fresh(p.PreChecks.State)
 			api.Assert(v.UpdateChecks(ctx, p.PreChecks) == nil, "UpdateChecks succeeds")
 			api.Reach("checks updated")
 		case 2:
-			nm.state(p.Blocks[0].State)
+			nm.fresh(p.Blocks[0].State)
 			api.Assert(v.UpdateBlock(ctx, p.Blocks[0]) == nil, "UpdateBlock succeeds")
 			api.Reach("block updated")
 		case 3:
-			nm.state(p.Blocks[0].Sequences[0].State)
+			nm.fresh(p.Blocks[0].Sequences[0].State)
 			api.Assert(v.UpdateSequence(ctx, p.Blocks[0].Sequences[0]) == nil, "UpdateSequence succeeds")
 			api.Reach("sequence updated")
 		case 4:
 			a := p.Blocks[0].Sequences[0].Actions[0]
-			nm.state(a.State)
+			nm.fresh(a.State)
 			a.Attempts = append(a.Attempts, &workflow.Attempt{Start: vhT(nm.name("astart")), End: vhT(nm.name("aend")), Resp: kit.Resp{N: api.NondetInt(nm.name("resp"))}})
 			api.Assert(v.UpdateAction(ctx, a) == nil, "UpdateAction succeeds")
 			api.Reach("action updated")
